@@ -179,7 +179,8 @@ def run(ctx, anchors=None):
         if n["k"] == "if" and any(x["k"] == "assign" and astq.estr(x["lhs"]) == "has_p2sh" for x in walk(n["then"])):
             cj = [astq.estr(c) for c in S.conjuncts(n["cond"])]
             if any("successor_script" in c for c in cj):
-                listing_p2sh = (n, cj)
+                if listing_p2sh is None or len(list(walk(n))) < len(list(walk(listing_p2sh[0]))):
+                    listing_p2sh = (n, cj)
     ctx.site()
     if listing_p2sh is None:
         ctx.fail("R12.3", "p2sh-section-predicate", main.loc(), "the condition under which the P2SH section is listed was not found")
@@ -210,12 +211,15 @@ def run(ctx, anchors=None):
              "the numbered listing has the sections %s but the dual-stack display has %s: the two views of the script disagree" % (h1, h2))
 
     def p2sh_pred(func):
+        best = None
         for n in func.nodes():
             if n["k"] == "if" and any(x["k"] == "assign" and astq.estr(x["lhs"]) == "has_p2sh" for x in walk(n["then"])):
                 cj = sorted(astq.estr(c).replace("instance.", "").replace("env->", "") for c in S.conjuncts(n["cond"]))
                 if any("successor_script" in c for c in cj):
-                    return cj
-        return None
+                    size = len(list(walk(n)))
+                    if best is None or size < best[0]:
+                        best = (size, cj)      # the innermost such branch
+        return best[1] if best else None
     p1, p2 = p2sh_pred(main), p2sh_pred(pds)
     ctx.site()
     ctx.inst(p1 is not None and p1 == p2, "R12.6", "same-p2sh-predicate", pds.loc(), "both listings show the P2SH section under %s" % p1,
